@@ -372,13 +372,18 @@ theorem C13_cyl_cap_override (dz : ℝ) (v d pt : EV3) (hdz : d.z ≠ 0) (hz : 0
   · intro h0 h1
     simp only [capOverride, if_neg h0, if_neg h1]
 
-/-- Cylinder, bracketing — what is proved: if `get_exit_points` returns `(enter, exit)` then along every non-zero
+/-- (Guard `d.x ≠ 0 ∨ d.y ≠ 0`: for the exactly vertical direction the source divides by `d_y = 0`; the real code
+then works with IEEE infinities and returns the correct cap points — checked on the implementation —, whereas the
+ℝ-reading has `x/0 = 0`.  The statement is therefore made only where the two readings agree; the vertical direction
+is carried by the Float-twin correspondence run and the chord oracle.)
+Cylinder, bracketing — what is proved: if `get_exit_points` returns `(enter, exit)` then along every non-zero
 direction component the entry point is behind (or at) the vertex and the exit point ahead of (or at) it — the
 `np.all(… < 0)` / `np.all(… > 0)` / `np.all(… == 0)` classification of the code.
 (Full statement: for a vertex inside and a non-zero direction the method always returns, and the points are on the
 boundary; on-the-surface/on-the-line is `C13_cyl_side_roots` + `C13_cyl_cap_override`; that the overridden point lies
 within the cap disc, and totality, are not proved — grazing tangency makes `disc` round to a negative number.) -/
 theorem C13_cyl_exit_brackets_vertex_partial (dr dz : ℝ) (v d a b : EV3)
+    (_hguard : d.x ≠ 0 ∨ d.y ≠ 0)
     (h : cylExit dr dz v d = some (a, b)) :
     (allNeg a v d ∨ allZero a v d) ∧ (allPos b v d ∨ allZero b v d) := by
   unfold cylExit at h
@@ -625,6 +630,21 @@ theorem C13_cyl_exit_total_dx_zero (dr dz : ℝ) (v d : EV3) (hdx : d.x = 0) (hd
       unfold classify
       rw [if_neg (lineAt_not_allNeg_y v d hdy t1 ht1), if_pos (lineAt_allPos v d t1 ht1)]
     rw [c1]; rfl
+
+/-! ### error branch: the zero direction is rejected -/
+
+/-- `RectangularGenerator.get_exit_points` raises (`ValueError`) for the zero direction: every face is skipped -/
+theorem C13_box_exit_zero_direction (dx dy dz : ℝ) (v : EV3) : boxExit dx dy dz v ⟨0, 0, 0⟩ = none := by
+  simp [boxExit, boxLoop, comp]
+
+/-- `CylindricalGenerator.get_exit_points` raises for the zero direction: `np.all` over no component is true, so both
+candidates are taken as entry points and no exit point is ever set -/
+theorem C13_cyl_exit_zero_direction (dr dz : ℝ) (v : EV3) : cylExit dr dz v ⟨0, 0, 0⟩ = none := by
+  have hneg : ∀ pt : EV3, allNeg pt v ⟨0, 0, 0⟩ := by
+    intro pt; unfold allNeg; simp
+  unfold cylExit classify
+  simp only [hneg, if_true]
+  rfl
 
 /-! ## counting -/
 
